@@ -158,6 +158,10 @@ func c08Corpus(family string) [][]byte {
 			key3,
 			{Profile: 1, NonKey: true, IntraOnly: true},
 			{Profile: 2, NonKey: true, IntraOnly: true},
+			{Profile: 0, NonKey: true, IntraOnly: true},
+			{Profile: 3, NonKey: true, IntraOnly: true, ColorSpace: 2},
+			{Profile: 3, NonKey: true, IntraOnly: true, ColorSpace: 7, TwelveBit: true},
+			{Profile: 1, NonKey: true, IntraOnly: true, ColorSpace: 7, ErrorResilient: true},
 		} {
 			e := h.Encode(0, 0)
 			for cut := 1; cut <= len(e); cut++ {
